@@ -261,6 +261,11 @@ def _is_std_array(em, e):
 
 
 def operator_call(em, n, rd, args):
+    if rd.get('name') == 'operator<<' and args and re.match(r'^basic_ostream<', _obj_norm(em, args[0])):
+        # M-ostream: writing a diagnostic to a stream has no effect on the state the contracts speak about: the whole
+        # insertion chain is dropped (its operands are plain reads)
+        em.lowerings['M-ostream(stream insertion dropped)'] += 1
+        return '((void)0)'
     if rd.get('name') == 'operator-' and len(args) == 2 and re.match(r'^(chrono::)?(time_point<|duration<)', _obj_norm(em, args[0])):
         em.lowerings['M-chrono(operator-)'] += 1
         return '((%s) - (%s))' % (em.E(args[0]), em.E(args[1]))
